@@ -61,15 +61,32 @@ class Cache:
 
         ref = self.ahash.hexdigest()
 
-        if ref in Cache._cache:
-            return Cache._cache[ref]
-        else:
+        if ref not in Cache._cache:
             data = self.func(*args, **kwargs)
             Cache._cache[ref] = data
             Cache._keys.append(ref)
             if len(Cache._keys) > MAX_SIZE:
                 delref = Cache._keys.pop(0)
                 Cache._cache.pop(delref)
+        else:
+            data = Cache._cache[ref]
+        # The cached object itself is never handed out.
+        return Cache._handout(data)
+
+    @staticmethod
+    def _handout(data):
+        """Return a copy of the arrays in `data`
+
+        The caller may modify what it gets; this must not change what
+        later calls with the same arguments return.
+        """
+        if isinstance(data, np.ndarray):
+            return data.copy()
+        elif isinstance(data, tuple):
+            return tuple(Cache._handout(dd) for dd in data)
+        elif isinstance(data, list):
+            return [Cache._handout(dd) for dd in data]
+        else:
             return data
 
     def _update_hash(self, arg):
